@@ -19,6 +19,9 @@
     The ceremony address is funded at output indices 0..65536, spends have one to three inputs and are chained; the wallets
     of a group differ in what they know of the spent output (fetched it / offline signer with the keys only / address not
     derived): an offline signer must accept object, file and dictionary exports and its signature counts like any other.
+    The signature state is per input: spends draw on two addresses of the group, inputs are signed unevenly (index_n, child
+    keys of one address) with the incomplete input first / in the middle / last: verified and broadcast <=> EVERY input has
+    m distinct signers.
 """
 import itertools
 import logging
@@ -613,7 +616,7 @@ def run(replay=None):
     else:
         for k, (m, n, wt, srt, combos) in enumerate(agree_plan(rng, thorough)):
             ajobs.append((seed0 * 1000 + k, m, n, wt, srt, combos, str(k)))
-        budget = 60 if thorough else 13
+        budget = 48 if thorough else 13
         nslots = 3
         for k, (m, n, holders, srt, wt) in enumerate(plan(rng, thorough)):
             W = len(holders)
@@ -648,7 +651,7 @@ def run(replay=None):
                 cl.append({'slot': 1, 'points': pts, 'events': ev})
             # uneven signing of spends with two or three inputs drawn from two addresses of the group: the incomplete input
             # first, in the middle, last; with index_n and with child keys of one address
-            for u in range(4 if not thorough else 9):
+            for u in range(4 if not thorough else 6):
                 kk = 2 + (u + k) % 2
                 pos = [1, kk, 2, 1][(u + k) % 4] if kk == 3 else 1 + (u + k // 2) % 2
                 ev = legalize(gen_uneven(rng, m, holders, knows, kk, min(pos, kk), 'key' if (u + k) % 3 == 0 else 'in'), knows, rng)
